@@ -32,6 +32,10 @@ type scope struct {
 	instances   map[instanceKey]any
 	instancesMu sync.RWMutex
 
+	// Construction locks of scoped services (one per registration)
+	constructing   map[*Descriptor]*sync.Mutex
+	constructingMu sync.Mutex
+
 	// Track disposable scoped instances
 	disposables   []Disposable
 	disposablesMu sync.Mutex
@@ -298,6 +302,31 @@ func (s *scope) Close() error {
 	return nil
 }
 
+// lockConstruction acquires the construction lock of the registration that
+// descriptor belongs to (all outputs of one constructor share it) and returns
+// the function releasing it. Dependencies are acyclic, so locks are always
+// taken in dependency order and cannot deadlock.
+func (s *scope) lockConstruction(descriptor *Descriptor) func() {
+	owner := descriptor
+	if len(descriptor.family) > 0 {
+		owner = descriptor.family[0]
+	}
+
+	s.constructingMu.Lock()
+	if s.constructing == nil {
+		s.constructing = make(map[*Descriptor]*sync.Mutex)
+	}
+	mu, ok := s.constructing[owner]
+	if !ok {
+		mu = &sync.Mutex{}
+		s.constructing[owner] = mu
+	}
+	s.constructingMu.Unlock()
+
+	mu.Lock()
+	return mu.Unlock
+}
+
 // getInstance retrieves a cached instance from this scope in a thread-safe manner.
 // Returns the instance and true if found, or nil and false if not cached.
 func (s *scope) getInstance(key instanceKey) (any, bool) {
@@ -378,6 +407,15 @@ func (s *scope) resolve(key instanceKey, descriptor *Descriptor) (any, error) {
 
 	case Scoped:
 		// Check for circular dependency only when creating new instance
+		if instance, ok := s.getInstance(key); ok {
+			return instance, nil
+		}
+
+		// Serialize construction per registration so that concurrent
+		// resolutions in one scope end up with one instance
+		unlock := s.lockConstruction(descriptor)
+		defer unlock()
+
 		if instance, ok := s.getInstance(key); ok {
 			return instance, nil
 		}
